@@ -13,13 +13,13 @@ fn main() {
         eprintln!("MACHINERY-ERROR property={} clock seam self-test failed: {e}", args.property);
         std::process::exit(2);
     }
-    let code = match args.property.as_str() {
+    let code = explorer::guard_main(&args.property, || match args.property.as_str() {
         "C30" => c30::run(Report::new(&args, "model_checking")),
         "C39" => c39::run(Report::new(&args, "model_checking")),
         other => {
             eprintln!("vh-spaces: unknown property {other}");
             2
         }
-    };
+    });
     std::process::exit(code);
 }
